@@ -14,6 +14,7 @@ package main
 import (
 	"sync"
 	"sync/atomic"
+	"time"
 
 	"verif/lib/rig"
 	"verif/lib/vlib"
@@ -46,13 +47,7 @@ func replay() {
 			runServerUDP(sr, *w.Server)
 			sr.close()
 		case w.Client != nil:
-			ts, err := rig.StartServer(rig.ServerOpts{UDP: true, HandlerSet: "full", NoLog: true, OnEvent: onEvent, NoStream: true,
-				ReadTimeout: longTimeout, IdleTimeout: longTimeout, SenderReportPeriod: longTimeout, ReceiverReportPeriod: longTimeout})
-			if err != nil {
-				run.Fatal("server: %v", err)
-			}
-			runClientUDP(ts, *w.Client)
-			ts.Close()
+			runClientUDP(*w.Client)
 		case w.AnyPort != nil:
 			runAnyPort(*w.AnyPort)
 		case w.Timing != nil:
@@ -101,10 +96,17 @@ func main() {
 		defer wg.Done()
 		timingPart()
 	}()
-	controlPart()
-	wg.Wait()
-	serverUDPPart()
-	clientUDPPart()
+	walls := map[string]float64{}
+	timed := func(name string, f func()) {
+		t0 := time.Now()
+		f()
+		walls[name] = time.Since(t0).Seconds()
+	}
+	timed("control", controlPart)
+	timed("timing-tail", wg.Wait)
+	timed("server-udp", serverUDPPart)
+	timed("client-udp", clientUDPPart)
+	run.Extra("part_wall_s", walls)
 
 	run.ReportRaces()
 	run.Exhaustive(false)
